@@ -1066,9 +1066,11 @@ class MeshRegion:
                 * self.tanBeta
                 / self.hy
             )
-            self.g12 = self.Rxy * numpy.abs(self.Bpxy) * self.tanBeta / self.hy
+            # Grad(x).Grad(y) = -R*Bp*tanBeta/hy with the sign of Bpxy, and
+            # Grad(x).Grad(z) = -bpsign*dphidy*Grad(x).Grad(y) - I*g11
+            self.g12 = -self.Rxy * self.Bpxy * self.tanBeta / self.hy
             self.g13 = (
-                -self.Rxy * self.Bpxy * self.dphidy * self.tanBeta / self.hy
+                self.Rxy * numpy.abs(self.Bpxy) * self.dphidy * self.tanBeta / self.hy
                 - self.I * (self.Rxy * self.Bpxy) ** 2
             )
             self.g23 = (
@@ -1086,7 +1088,7 @@ class MeshRegion:
             self.g_33 = self.Rxy**2
             self.g_12 = (
                 self.bpsign * self.I * self.dphidy * self.Rxy**2
-                - self.hy * self.tanBeta / (self.Rxy * numpy.abs(self.Bpxy))
+                + self.hy * self.tanBeta / (self.Rxy * self.Bpxy)
             )
             self.g_13 = self.I * self.Rxy**2
             self.g_23 = self.bpsign * self.dphidy * self.Rxy**2
